@@ -16,7 +16,7 @@ RULE = (
     "task_indices; (identity) q(u)=p(u) => q(f)=prior, KL=0, whitened vs unwhitened same q(u) => same q(f); distinct = cell without seed; "
     "non-trivial iff q(u) != p(u) (KL > 1e-3) except for the identity cells"
 )
-REQUIRED = ["qu_encodes_parameters", "qf_mean", "qf_mean_skipvar", "qf_covar", "qf_train_variance", "kl_closed_form", "qu_equals_prior_gives_prior", "whitened_equals_unwhitened", "lmc_mixing", "indep_mixing", "grid_interp_qf", "bdvs_qf"]
+REQUIRED = ["qu_encodes_parameters", "qf_mean", "qf_mean_skipvar", "qf_covar", "qf_train_variance", "kl_closed_form", "qu_equals_prior_gives_prior", "whitened_equals_unwhitened", "lmc_mixing", "indep_mixing", "grid_interp_qf", "bdvs_qf", "orth_decoupled_qf", "orth_decoupled_kl"]
 ASSUMPTIONS = [
     "jitter rule: a result is accepted when it matches the closed form with the strategy's jitter_val on K_ZZ/K_XX or, within 2x the difference between the two, the one without",
     "CIQ is compared at num_contour_quadrature=40, tight tolerances, 1e-3 relative",
@@ -47,6 +47,8 @@ def cases(tier, seed):
             yield {"kind": "identity", "strategy": strat, "dist": dist, "seed": rnd.randrange(10**6)}
         for dist in DISTS[:2]:
             yield {"kind": "same_qu", "dist": dist, "seed": rnd.randrange(10**6)}
+        for base, dist, mg in itertools.product(["VariationalStrategy", "UnwhitenedVariationalStrategy"], DISTS[:2], [1, 5]):
+            yield {"kind": "orth", "base": base, "dist": dist, "mg": mg, "seed": rnd.randrange(10**6)}
 
 
 _ST = {}
@@ -213,7 +215,7 @@ def run_case(case, ctx):
     from vf import util
 
     g = util.gen(case["seed"])
-    return {"svgp": _svgp, "bdvs": _bdvs, "grid": _grid, "lmc": _multitask, "indep": _multitask, "identity": _identity, "same_qu": _same_qu}[case["kind"]](case, ctx, g)
+    return {"svgp": _svgp, "bdvs": _bdvs, "grid": _grid, "lmc": _multitask, "indep": _multitask, "identity": _identity, "same_qu": _same_qu, "orth": _orth}[case["kind"]](case, ctx, g)
 
 
 def _qu_unwhitened(case_strat, dist, vs, Kzz, mz, jit):
@@ -384,6 +386,72 @@ def _bdvs(case, ctx, g):
         klr = _kl(m_par, S_par, torch.zeros(M_), torch.eye(M_))
         off_by_const = bool(abs(float(kl - klr) - 0.5 * M_ * math.log(2 * math.pi)) < 1e-7)
         ctx.close("kl_closed_form", kl, klr, (1e-7, 1e-7), cls="bdvs:kl", strategy="BatchDecoupled", dist=case["dist"], mode="train", offset_is_half_M_log_2pi=off_by_const)
+    ctx.cell({k: v for k, v in case.items() if k != "seed"})
+
+
+def _orth(case, ctx, g):
+    """OrthogonallyDecoupledVariationalStrategy: a delta distribution a over extra inducing points Z_g on top of a base
+    strategy q_b: mean = m_b(x) + Cov_b(x, Z_g) a, covariance = Cov_b(x, x), KL = KL_b + a' Cov_b(Z_g, Z_g) a / 2, with
+    m_b / Cov_b the base strategy's q(f) (closed form of the statement) evaluated jointly at [x; Z_g]"""
+    import torch
+
+    import gpytorch
+    from vf import util
+
+    V = gpytorch.variational
+    Zb, Zg = util.randn(g, M_, D), util.randn(g, case["mg"], D)
+
+    class Mdl(gpytorch.models.ApproximateGP):
+        def __init__(s):
+            base = getattr(V, case["base"])(s, Zb, getattr(V, case["dist"])(M_), learn_inducing_locations=True)
+            vs = V.OrthogonallyDecoupledVariationalStrategy(base, Zg, V.DeltaVariationalDistribution(case["mg"]))
+            super().__init__(vs)
+            s.mean_module = gpytorch.means.ConstantMean()
+            s.covar_module = gpytorch.kernels.ScaleKernel(gpytorch.kernels.MaternKernel(nu=2.5))
+
+        def forward(s, x):
+            return gpytorch.distributions.MultivariateNormal(s.mean_module(x), s.covar_module(x))
+
+    m = Mdl()
+    util.randomize(m.mean_module, g, 0.7)
+    util.randomize(m.covar_module, g, 0.4)
+    vs = m.variational_strategy
+    base = vs.base_variational_strategy
+    _randomize_vd(base._variational_distribution, case["dist"], g)
+    with torch.no_grad():
+        vs._variational_distribution.variational_mean.copy_(util.randn(g, case["mg"]) * 0.5)
+    for mod in m.modules():
+        if hasattr(mod, "variational_params_initialized"):
+            mod.variational_params_initialized.fill_(1)
+    X = util.randn(g, N_, D)
+    P = torch.cat([X, vs.inducing_points.detach()], -2)
+    a = vs._variational_distribution.variational_mean.detach()
+    jit = float(base.jitter_val)
+    Kzz, Kpz, Kpp, mz, mp_ = _pieces(m, base.inducing_points.detach(), P)
+    (mu_j, Su_j), (mu_0, Su_0) = _qu_unwhitened(case["base"], case["dist"], base, Kzz, mz, jit)
+    refs = []
+    for (mu, Su, jz, jx) in ((mu_j, Su_j, jit, jit if case["base"] != "UnwhitenedVariationalStrategy" else 0.0), (mu_0, Su_0, 0.0, 0.0)):
+        mP, CP = _closed_form(Kzz, Kpz, Kpp, mz, mp_, mu, Su, jz, jx)
+        mean = mP[:N_] + CP[:N_, N_:] @ a
+        refs.append((mean, CP[:N_, :N_], 0.5 * a @ CP[N_:, N_:] @ a))
+    with torch.no_grad():
+        m.eval()
+        out = m(X)
+        kl_eval = vs.kl_divergence()
+        kl_base_eval = base.kl_divergence()
+        m.train()
+        out_t = m(X)
+        kl_train = vs.kl_divergence()
+        kl_base = base.kl_divergence()
+    tol = (1e-7, 1e-7)
+    ctx.close("orth_decoupled_qf", out.mean, refs[0][0], tol, cls="orth:mean", alt=refs[1][0], base=case["base"], part="eval_mean")
+    ctx.close("orth_decoupled_qf", out.covariance_matrix, refs[0][1], tol, cls="orth:cov", alt=refs[1][1], base=case["base"], part="eval_cov")
+    ctx.close("orth_decoupled_qf", out_t.mean, refs[0][0], tol, cls="orth:train_mean", alt=refs[1][0], base=case["base"], part="train_mean")
+    ctx.close("orth_decoupled_qf", out_t.variance, torch.diagonal(refs[0][1]), tol, cls="orth:train_var", alt=torch.diagonal(refs[1][1]), base=case["base"], part="train_var")
+    # the extra KL term (base KL is decided by the base strategy's own cells); eval mode adds jitter_val to Cov_b(Z_g, Z_g)
+    jv = float(vs.jitter_val)
+    ctx.close("orth_decoupled_kl", kl_train - kl_base, refs[0][2], (1e-6, 1e-6), cls="orth:kl_train", alt=refs[1][2], base=case["base"], part="kl_train")
+    ctx.close("orth_decoupled_kl", kl_eval - kl_base_eval, refs[0][2] + 0.5 * jv * (a @ a), (1e-6, 1e-6), cls="orth:kl_eval", alt=refs[1][2], base=case["base"], part="kl_eval")
     ctx.cell({k: v for k, v in case.items() if k != "seed"})
 
 
@@ -591,4 +659,10 @@ def _ciq_ngd(case, fl):
     return fl["monitor"] == "qf_covar" and fl.get("diagonal_ok") is True and fl.get("offdiag_zero") is True
 
 
-MATCHERS = {"C14-unwhitened-eval-mode-kl-jitter": _unwhitened_eval_kl, "C14-bdvs-kl-constant-offset": _bdvs_const, "C14-ciq-ngd-kl-zero-diag-covariance": _ciq_ngd}
+def _orth_unwhitened_train(case, fl):
+    """OrthogonallyDecoupledVariationalStrategy over an UnwhitenedVariationalStrategy in TRAINING mode: the base strategy
+    returns only a diagonal prior-conditional part in training mode, the wrapper reads its off-diagonal blocks"""
+    return case.get("kind") == "orth" and fl["monitor"].startswith("orth_decoupled") and fl.get("base") == "UnwhitenedVariationalStrategy" and fl.get("part") in ("train_mean", "kl_train")
+
+
+MATCHERS = {"C14-orth-decoupled-over-unwhitened-training-mode": _orth_unwhitened_train, "C14-unwhitened-eval-mode-kl-jitter": _unwhitened_eval_kl, "C14-bdvs-kl-constant-offset": _bdvs_const, "C14-ciq-ngd-kl-zero-diag-covariance": _ciq_ngd}
